@@ -81,11 +81,14 @@ def tree_text(t):
         return "%s EXCEPT %s" % (tree_text_p(t[1]), tree_text_p(t[2]))
     if k == "allexcept":
         return "ALL EXCEPT %s" % tree_text_p(t[1])
+    if k == "incl":
+        # contained subtype: ('incl', type name, value set of that type's root, spelled with INCLUDES or not)
+        return ("INCLUDES " if len(t) > 3 and t[3] else "") + t[1]
     raise ValueError(k)
 
 
 def tree_text_p(t):
-    if t[0] in ("val", "range"):
+    if t[0] in ("val", "range", "incl"):
         return tree_text(t)
     return "(" + tree_text(t) + ")"
 
